@@ -67,9 +67,11 @@ COLORS = {
 }
 
 
-def colorizer(record, can_colorize=True):
+def colorizer(record, can_colorize=True, unescape=True):
     record = str(record)
-    record = record.replace(r"\u0001", "\x01")
+    if unescape:
+        # log records arrive JSON-encoded, where the token marker is written as \u0001
+        record = record.replace(r"\u0001", "\x01")
     if can_colorize:
         for k, v in COLORS.items():
             record = record.replace(k, v)
@@ -415,7 +417,8 @@ def ascii_table(
         yield ("└" + ("─" * index_width) + "┴─" + "─┴─".join("─" * cw for cw in col_width) + "─┘")
 
     return "\n".join(
-        colorizer(trunc_printable(line, display_width, False), colorize) for line in _inner()
+        colorizer(trunc_printable(line, display_width, False), colorize, unescape=False)
+        for line in _inner()
     )
 
 
